@@ -71,7 +71,9 @@ Print Assumptions C01_thread_affine.
     unwinding callee's disposal of an argument it owns, and the destructors that
     unwinding runs in the loop (none: the deferred store frees a [Vec] of
     [MaybeUninit] cells, thin-air cells are [MaybeUninit], the barrier guard only
-    waits) never misuse a cell; the events seen by user code and destructors
+    performs the waits of the sample that were not reached: [GuardWait] actions,
+    counted by [C01_unwind_after_call_panic] / [C01_unwind_after_gen_panic]) never
+    misuse a cell; the events seen by user code and destructors
     contain no second drop of a value and no use of a dropped value.  Values may
     be leaked (the statement says nothing about the final store). *)
 Theorem C01_panic_safe : forall e sh n cs u multi site k,
@@ -167,3 +169,22 @@ Theorem C01_meaning_order : forall m l1 e l2,
   end.
 Proof. exact happens_before. Qed.
 Print Assumptions C01_meaning_order.
+
+(** What unwinding adds after the part of the sample that ran: when the
+    benchmarked function panics at call [k < n] the thread has already waited
+    twice (before and after the tally clear), so [Drop for SampleBarrier] waits
+    exactly once; when the generator panics at index [k < n] it has not waited
+    yet, so the guard performs all three waits.  Nothing else runs. *)
+Theorem C01_unwind_after_call_panic : forall e sh n cs u k,
+  k < n ->
+  exists ran, cut_prog PanicCall k (sample_prog e sh n cs u) = ran ++ [GuardWait]
+              /\ Forall (fun a => a <> GuardWait) ran.
+Proof. exact unwind_after_call_panic. Qed.
+Print Assumptions C01_unwind_after_call_panic.
+
+Theorem C01_unwind_after_gen_panic : forall e sh n cs u k,
+  k < n ->
+  exists ran, cut_prog PanicGen k (sample_prog e sh n cs u) = ran ++ [GuardWait; GuardWait; GuardWait]
+              /\ Forall (fun a => a <> GuardWait) ran.
+Proof. exact unwind_after_gen_panic. Qed.
+Print Assumptions C01_unwind_after_gen_panic.
